@@ -90,7 +90,7 @@ def decode(text, diags):
     return out
 
 
-def drive(verif, tag, cases, judge, nservers=8, cpu_limit=60.0):
+def drive(verif, tag, cases, judge, nservers=8, cpu_limit=60.0, reuse_uri=False):
     """Feed the cases to `nservers` server sessions; judge(case, status, diagnostics) -> findings."""
     base = os.path.join(verif, "target", "run", "lsx_" + tag)
     shutil.rmtree(base, ignore_errors=True)
@@ -112,7 +112,9 @@ def drive(verif, tag, cases, judge, nservers=8, cpu_limit=60.0):
                 st.update(c.get("settings") or {})
                 s.settings = {"harper-ls": st}
                 ext = EXT.get(c["lang"]) or c.get("ext") or "src"
-                uri = uri_for(os.path.join(s.workdir, "doc%d.%s" % (i, ext)))
+                # reuse_uri: the same URI is closed and opened again under another language id (what an editor does
+                # when the user changes the language mode of a buffer), every third case gets a URI of its own
+                uri = uri_for(os.path.join(s.workdir, "buffer" if reuse_uri and i % 3 else "doc%d.%s" % (i, ext)))
                 n0 = s.n_publishes(uri)
                 s.notify("textDocument/didOpen", {"textDocument": {"uri": uri, "languageId": c["lang"], "version": 1, "text": c["text"]}})
                 status = await_publish(s, uri, n0, cpu_limit)
@@ -209,7 +211,7 @@ def run_c04(tier, seed, scale, verif):
                 samples.append({"language_id": c["lang"], "constructs": c["constructs"], "planted": len(c["planted"]), "forbidden_segments": len(c["forbidden"])})
         return out
 
-    findings, inc, stats = drive(verif, "c04", cases, judge)
+    findings, inc, stats = drive(verif, "c04", cases, judge, reuse_uri=True)
     return result(t0, cases, findings, inc, stats, shapes, samples, "harper-ls on grammar-generated files with ground truth: %(cases)d files, %(answered)d answered, %(diagnostics)d diagnostics decoded")
 
 
@@ -254,7 +256,7 @@ def run_c01(tier, seed, scale, verif):
                 samples.append({"language_id": c["lang"], "text": c["text"][:120], "diagnostics": len(diags)})
         return liveness("C01", c, status)
 
-    findings, inc, stats = drive(verif, "c01", cases, judge)
+    findings, inc, stats = drive(verif, "c01", cases, judge, reuse_uri=True)
     return result(t0, cases, findings, inc, stats, shapes, samples, "harper-ls on hostile documents in every language id: %(cases)d documents, %(answered)d answered, %(restarts)d server restarts")
 
 
@@ -281,13 +283,24 @@ def run_c05(tier, seed, scale, verif):
                 uri = uri_for(os.path.join(s.workdir, "doc." + (EXT.get(g["lang"]) or "txt")))
                 seen = set()
                 trace = []
+                path = os.path.join(s.workdir, "doc." + (EXT.get(g["lang"]) or "txt"))
                 for i, st in enumerate(g["steps"]):
                     n0 = s.n_publishes(uri)
-                    if i == 0:
+                    if st.get("op") == "config":
+                        # the client saves the buffer, then the settings change while the document stays open
+                        with open(path, "w", encoding="utf-8", newline="") as fh:
+                            fh.write(st["text"])
+                        paths = {kk: vv for kk, vv in s.settings["harper-ls"].items() if kk in ("userDictPath", "fileDictPath", "statsPath")}
+                        paths.update(st["settings"])
+                        s.settings = {"harper-ls": paths}
+                        s.notify("workspace/didChangeConfiguration", {"settings": s.settings})
+                        trace.append({"didChangeConfiguration": st["settings"]})
+                    elif i == 0:
                         s.notify("textDocument/didOpen", {"textDocument": {"uri": uri, "languageId": g["lang"], "version": 1, "text": st["text"]}})
                     else:
                         s.notify("textDocument/didChange", {"textDocument": {"uri": uri, "version": i + 1}, "contentChanges": [{"text": st["text"]}]})
-                    trace.append(st["text"])
+                    if st.get("op") != "config":
+                        trace.append(st["text"])
                     if await_publish(s, uri, n0, 60.0) != "ok":
                         raise client.ServerDied("no publish at step %d" % i)
                     got = sorted(decode(st["text"], s.last_diagnostics(uri)), key=lambda x: (x[0] if x[0] is not None else -1, x[1] if x[1] is not None else -1, x[2]))
@@ -302,7 +315,7 @@ def run_c05(tier, seed, scale, verif):
                             kind = "missing" if missing else "extra"
                             m = (missing or extra or [(0, 0, "multiplicity")])[0]
                             findings.append({"prop": "C05", "sig": "ls.history.%s@%s" % (kind, norm_msg(m[2])), "count": 1, "wlen": len(trace),
-                                             "witness": {"language_id": g["lang"], "settings": g["settings"], "texts_sent_to_one_document_in_order": list(trace)},
+                                             "witness": {"language_id": g["lang"], "settings": g["settings"], "sent_to_one_document_in_order": list(trace)},
                                              "detail": "step %d of a didChange history on one document: the library reports %d lints for this text, the server publishes %d; first %s: %r" % (i, len(exp), len(got), kind, m)})
                     seen.add(st["text"])
                 with lock:
@@ -335,3 +348,109 @@ def run_c05(tier, seed, scale, verif):
     return {"evaluations": stats["steps"], "distinct_nontrivial": stats["histories"], "samples": [{"language_id": g["lang"], "settings": g["settings"], "steps": len(g["steps"]), "first_text": g["steps"][0]["text"][:100] if g["steps"] else ""} for g in groups[:2]],
             "findings": list(merged.values()), "notes": ["harper-ls didChange histories on one document: %(histories)d histories, %(steps)d publishes compared with the library, %(repeated_texts)d texts sent more than once" % stats],
             "inconclusive": inconclusive if len(inconclusive) > max(2, len(groups) // 10) else [], "counters": {"ls_" + k: v for k, v in stats.items()}, "wall_s": time.time() - t0}
+
+
+def run_c06(tier, seed, scale, verif):
+    """C06 at the server: the active dictionary is the curated one plus the user's and the file's word lists as they
+    lie on disk (written here in the shapes editors and users produce: LF, CRLF, no final newline, blank lines).
+    No word such a list contains may be published as a spelling error, in its listed capitalisation; strings that
+    no list contains must be published, exactly at their characters."""
+    import model
+    t0 = time.time()
+    rng = random.Random(seed * 2003 + 6)
+    mat = export(verif, "dictwords", 400, seed)[0]
+    base = os.path.join(verif, "target", "run", "lsx_c06")
+    shutil.rmtree(base, ignore_errors=True)
+    os.makedirs(base)
+    n = int((200 if tier == "quick" else 4000) * scale) or 1
+    seeds = [rng.getrandbits(48) for _ in range(n)]
+    findings, inconclusive = [], []
+    stats = {"sessions": 0, "listed_words_checked": 0, "unlisted_checked": 0}
+    shapes = set()
+    lock = threading.Lock()
+    novel = ["zxqvish", "Blorptastic", "qwertzuio", "Harperesque", "frobnicate", "naïvetés", "déjàvuish", "O’Blorpy", "snarfle", "Wibblewobble"]
+    controls = ["qzxvbish", "mrrglton", "vlorptik", "Zzyxqua"]
+    frames = ["%s", "We met %s yesterday.", "The %s was late again, sadly.", "café \U0001F600 and %s too."]
+
+    def one(i):
+        r = random.Random(seeds[i])
+        wd = os.path.join(base, "c%d" % i)
+        s = Server(wd)
+        try:
+            user = r.sample(novel, r.randint(1, 4)) + r.sample(mat["lower_of_capitalised"], min(3, len(mat["lower_of_capitalised"])))
+            filew = r.sample([w for w in novel if w not in user], 2) + r.sample(mat["lower_of_capitalised"], min(2, len(mat["lower_of_capitalised"])))
+            filew = [w for w in filew if w not in user]
+            lang = r.choice(["plaintext", "markdown", "mail"])
+            path = os.path.join(wd, "doc." + EXT[lang])
+            shape_u, shape_f = r.choice(["lf", "crlf", "no-final-newline", "blank-lines", "crlf-no-final-newline"]), r.choice(["lf", "crlf", "no-final-newline"])
+
+            def render(words, shape):
+                eol = "\r\n" if shape.startswith("crlf") else "\n"
+                body = (eol + eol if shape == "blank-lines" else eol).join(words)
+                return body if shape.endswith("no-final-newline") else body + eol
+
+            os.makedirs(os.path.dirname(s.user_dict), exist_ok=True)
+            os.makedirs(s.file_dict_dir, exist_ok=True)
+            with open(s.user_dict, "w", encoding="utf-8", newline="") as fh:
+                fh.write(render(user, shape_u))
+            with open(os.path.join(s.file_dict_dir, model.file_dict_name(path)), "w", encoding="utf-8", newline="") as fh:
+                fh.write(render(filew, shape_f))
+            s.initialize()
+            listed = r.sample(mat["listed"], 3)
+            pieces = []
+            for w in user + filew + listed:
+                pieces.append(("listed", w, r.choice(frames) % w))
+            for w in r.sample(controls, 2):
+                pieces.append(("unlisted", w, r.choice(frames[1:]) % w))
+            r.shuffle(pieces)
+            text, marks = "", []
+            for kind, w, sent in pieces:
+                off = len(text) + sent.index(w)
+                marks.append((kind, w, off, off + len(w)))
+                text += sent + r.choice(["\n\n", "\n\n", " "])
+            uri = uri_for(path)
+            s.open(uri, text, lang)
+            diags = decode(text, s.last_diagnostics(uri))
+            spelling = [(a, b, m) for a, b, m in diags if m.startswith("Did you mean to spell") or re.match(r"^Did you mean “.*”\?$", m)]
+            wit = {"user_dictionary_file": render(user, shape_u), "file_dictionary_file": render(filew, shape_f), "language_id": lang, "text": text}
+            out = []
+            for kind, w, a, b in marks:
+                hit = [d for d in spelling if d[0] is not None and d[0] < b and a < d[1]]
+                if kind == "listed" and hit:
+                    where = "user" if w in user else "file" if w in filew else "curated"
+                    shape = shape_u if w in user else shape_f if w in filew else "-"
+                    twin = "lower-case-of-capitalised-entry" if w in mat["lower_of_capitalised"] else "plain"
+                    out.append({"prop": "C06", "sig": "ls.flagged-listed-word@%s/%s/%s" % (where, shape, twin), "count": 1, "wlen": len(text), "witness": wit,
+                                "detail": "%r is listed in the %s dictionary (file written with %s line ends) but published as a spelling error: %r" % (w, where, shape, hit[0])})
+                if kind == "unlisted" and not any(d[0] == a and d[1] == b for d in spelling):
+                    out.append({"prop": "C06", "sig": "ls.unlisted-not-flagged", "count": 1, "wlen": len(text), "witness": wit,
+                                "detail": "%r is in no dictionary but no spelling diagnostic covers exactly chars %d..%d (spelling diagnostics: %r)" % (w, a, b, [d[:2] for d in spelling][:8])})
+            with lock:
+                stats["sessions"] += 1
+                stats["listed_words_checked"] += sum(1 for m in marks if m[0] == "listed")
+                stats["unlisted_checked"] += sum(1 for m in marks if m[0] == "unlisted")
+                shapes.add((shape_u, shape_f, lang))
+                findings.extend(out)
+        except (client.Timeout, client.ServerDied, OSError) as e:
+            with lock:
+                inconclusive.append("session %d: %s" % (i, e))
+        finally:
+            try:
+                s.shutdown()
+            except Exception:
+                s.kill()
+            shutil.rmtree(wd, ignore_errors=True)
+
+    from concurrent.futures import ThreadPoolExecutor
+    with ThreadPoolExecutor(max_workers=8) as ex:
+        list(ex.map(one, range(n)))
+    shutil.rmtree(base, ignore_errors=True)
+    merged = {}
+    for f in findings:
+        if f["sig"] not in merged:
+            merged[f["sig"]] = f
+        else:
+            merged[f["sig"]]["count"] += 1
+    return {"evaluations": stats["listed_words_checked"] + stats["unlisted_checked"], "distinct_nontrivial": len(shapes), "samples": [{"dictionary_file_shapes": sorted({a for a, _, _ in shapes}), "novel_words": novel[:4], "lower_case_of_capitalised_entries": mat["lower_of_capitalised"][:4]}],
+            "findings": list(merged.values()), "notes": ["harper-ls with user / file dictionaries on disk: %(sessions)d sessions, %(listed_words_checked)d listed words and %(unlisted_checked)d unlisted strings checked" % stats],
+            "inconclusive": inconclusive if len(inconclusive) > max(2, n // 10) else [], "counters": {"ls_" + k: v for k, v in stats.items()}, "wall_s": time.time() - t0}
